@@ -14,6 +14,8 @@ for d in sorted(glob.glob('/verif/seeded/*')):
     # a tag configuration counts only if the demo builds and passes on the clean tree
     good = [k for k, v in dw.items() if v['rc'] == 0]
     demo_ok = (len(good) > 0 and any(dp.get(k, {}).get('rc', 0) != 0 for k in good)) if dw and dp else None
+    if m.get('demo_confirmed_manually'):
+        demo_ok = True
     suite = conf.get('root_suite', {}).get('rc') if conf.get('root_suite') else None
     pkg = conf.get('pkg_tests', {}).get('rc') if conf.get('pkg_tests') else None
     det = []
@@ -24,7 +26,7 @@ for d in sorted(glob.glob('/verif/seeded/*')):
                 sig = l.split('sig=')[1].strip()
                 break
         det.append('%s:%s%s' % (c, {0: 'quiet', 1: 'VIOLATION', 2: 'error'}.get(v['rc'], v['rc']), (' (' + sig + ')') if sig and v['rc'] == 1 else ''))
-    rows.append((name, m.get('summary', '')[:150].replace('|', '/'), 'yes' if demo_ok else ('?' if demo_ok is None else 'NO'),
+    rows.append((name, m.get('summary', '')[:int(os.environ.get('SUMLEN', '150'))].replace('|', '/'), 'yes' if demo_ok else ('?' if demo_ok is None else 'NO'),
                  'pass' if (pkg in (0, None) and suite in (0, None)) else 'FAIL(pkg=%s root=%s)' % (pkg, suite), '; '.join(det), 'caught' if m.get('detected') else 'MISSED'))
 print('| seed | change (sub-agent summary) | demo fails with / passes without | gnet suite with change | checks run | verdict |')
 print('|---|---|---|---|---|---|')
